@@ -145,6 +145,49 @@ def sweep(fx, R):
                            ', '.join(sorted({l_[0] for l_ in lost})), (lost[0][1] or ['default-initialised'])[0][:80]), fx.rel(g['loc']), 'E-STATE')
         else:
             R.holds('H3', inst, 'every member the read functions use (%s) is taken from the source object' % ', '.join(sorted(read)), fx.rel(g['loc']), 'E-STATE')
+    # ---- H7: a member used as the accumulator of a loop without being reset in the same call ---------------------------------------------
+    RESET_METHODS = ('setZero', 'setConstant', 'fill', 'clear', 'setIdentity', 'setOnes', 'assign', 'resize')
+    for f in sorted(fns, key=lambda f: f['q']):
+        if f.get('ctor') or not f.get('cls') or f.get('body') is None or f['body'].get('k') != 'Compound':
+            continue
+        top = f['body']['s']
+        for li, L in enumerate(top):
+            if L.get('k') not in ('For', 'While', 'RangeFor', 'Do'):
+                continue
+            accs = {}
+            for y in walk(L.get('b')):
+                if isinstance(y, dict) and ((y.get('k') == 'Bin' and y.get('op') in ('+=', '-=')) or (y.get('k') == 'Op' and y.get('op') in ('+=', '-=') and len(y.get('args', [])) == 2)):
+                    l_ = y['l'] if y.get('k') == 'Bin' else y['args'][0]
+                    l0 = strip_casts(l_)
+                    # whole-member accumulation only (M += ..., M.noalias() += ...), not element updates M(i, j) += ...
+                    while l0.get('k') == 'MCall' and l0.get('m') in ('noalias', 'array', 'matrix'):
+                        l0 = strip_casts(l0['obj'])
+                    if l0.get('k') == 'Member' and l0.get('field') and l0.get('cls') == f['cls']:
+                        accs[l0['name']] = y
+            for name, node in accs.items():
+                def resets(x):
+                    for y in walk(x):
+                        if not isinstance(y, dict):
+                            continue
+                        if (y.get('k') == 'Bin' and y.get('op') == '=') or (y.get('k') == 'Op' and y.get('op') == '=' and len(y.get('args', [])) == 2):
+                            l0 = strip_casts(y['l'] if y.get('k') == 'Bin' else y['args'][0])
+                            while l0.get('k') == 'MCall' and l0.get('m') in ('noalias', 'array', 'matrix'):
+                                l0 = strip_casts(l0['obj'])
+                            if l0.get('k') == 'Member' and l0.get('name') == name:
+                                return True
+                        if y.get('k') == 'MCall' and y.get('m') in RESET_METHODS and strip_casts(y.get('obj') or {}).get('k') == 'Member' and strip_casts(y['obj']).get('name') == name:
+                            return True
+                    return False
+                before = any(resets(x) for x in top[:li] if x.get('k') != 'If') or (L.get('init') is not None and resets(L['init']))
+                cond_reset = any(resets(x) for x in top[:li] if x.get('k') == 'If')
+                inst = '%s:loop-accumulator:%s' % (f['q'].split('(')[0], name)
+                if before:
+                    R.holds('H7', inst, 'the member is reset in this call before the loop that accumulates into it', fx.rel(L.get('loc') or f['loc']), 'E-STATE')
+                elif cond_reset:
+                    R.undecided('H7', inst, 'the member is reset only under a condition before the loop that accumulates into it')
+                else:
+                    R.violated('H7', inst, 'the loop accumulates into the member `%s` (`%s`) and nothing in %s() resets it first: the sum starts from whatever the previous call on this object left there, so the '
+                               'result depends on the calls made before (a fresh object is right, a re-used one is not)' % (name, pp(node)[:80], f['name']), fx.rel(node.get('loc') or f['loc']), 'E-STATE')
     # ---- H6: configuration held by reference ---------------------------------------------------------------------------------------
     # a data member of reference type bound, in a constructor, to a `const T &` parameter: the call site reads as passing a value (temporaries
     # bind to it), but the object keeps using the caller's object - whatever it holds later, or nothing at all once it is gone
